@@ -245,6 +245,8 @@ class Exec:
 
     def st_DeclStmt(self, st, env):
         for d in st.get('inner', []):
+            if d.get('kind') in ('TypeAliasDecl', 'TypedefDecl', 'UsingDecl', 'StaticAssertDecl'):
+                continue              # a local type alias declares no object
             if d.get('kind') != 'VarDecl':
                 raise CheckerError(f'unsupported declaration {d.get("kind")} at parsing.h:{line_of(st)}')
             init = [c for c in d.get('inner', []) if 'kind' in c]
